@@ -17,7 +17,7 @@ HDR = "x-goog-request-params"
 PROFILE = grammar.profile(
     p_routing=0.55, p_http=0.85, p_get=0.9, p_list=0.6, p_update=0.6, p_delete=0.6, p_custom=0.7, p_create=0.5,
     p_sstream=0.35, p_cstream=0.3, p_stream_routing=0.8, p_routing_name_clash=0.25, p_bidi=0.0, p_lro=0.4, p_raw_op=0.1, p_service_config=0.8, p_yaml=0.05,
-    transports=["grpc", "grpc+rest", "grpc+rest"], p_additional_binding=0.4, p_multi_var_path=0.4, p_reserved_path_var=0.5, p_custom_http_pattern=0.3, p_double_star_path=0.25)
+    transports=["grpc", "grpc+rest", "grpc+rest"], p_additional_binding=0.4, p_multi_var_path=0.4, p_reserved_path_var=0.5, p_custom_http_pattern=0.3, p_double_star_path=0.25, p_deep_path_var=0.3)
 
 BUDGET = {
     "quick": {"worlds": 150, "runs": 80, "wall_cap": 300, "world_wall": 90},
